@@ -45,7 +45,12 @@
 //!  * blocks.position: N resource blocks (AS, IPv4, IPv6; across 8, 16, 32, ... 256) x five block
 //!    shapes x every item of the stride of the queried block (gap, first, interior, last);
 //!  * identifier.spelling: sid, message digest and the EE certificate's key identifiers in every
-//!    length around the expected one (right prefix / right suffix / all wrong), all else satisfied.
+//!    length around the expected one (right prefix / right suffix / all wrong), all else satisfied;
+//!  * roa.count.relation: the number of prefixes of a ROA (0..=40 and around every power of two up to 1025)
+//!    x one or two further prefixes chosen by their RELATION to the others and to the EE certificate's blocks
+//!    x where they stand in the list x the order of the list;
+//!  * history.fold_collision: right after the genuine object was accepted on a thread, copies whose signature,
+//!    digest value, signing time or EE key differ in two places that cancel out in a folded / truncated key.
 //!
 //! Reference model: the condition vector itself (accept <=> all true); for
 //! coverage a bitmask over the atoms.
@@ -849,6 +854,7 @@ fn main() {
 
     //--- (4c') history on a new OS thread: predecessors leaving at every stage ---------------------------------------------
     history_independent(&ctx, &fx, &ees, thorough);
+    fold_collisions(&ctx, &fx, &ees, thorough);
 
     //--- (4g) fields no stated condition mentions; validity x signing time x evaluation instant ------------------------------
     ignored_fields(&ctx, &fx, thorough);
@@ -866,6 +872,7 @@ fn main() {
     //--- (4f) the scale dimension: number of blocks / prefixes / providers ------------------------------------------------
     scale_spaces(&ctx, &fx, thorough);
     blocks_position(&ctx, &fx, thorough);
+    count_relation(&ctx, &fx, thorough);
 
     //--- (4f') every compared identifier in every length around the expected one ------------------------------------------
     identifier_spelling(&ctx, &fx, thorough);
@@ -2939,4 +2946,459 @@ fn blocks_position(ctx: &Ctx, fx: &Fx, thorough: bool) {
     sp.sample_str(|| "ee certificate holds    9 blocks of shape `range`, block i at AS196608 + 16 i; issuer holds everything; aspa customer=AS196739 (the FIRST item of block 8 = offsets 3..=9 of stride 8) -> accepted".to_string());
     sp.sample_str(|| "ee certificate holds   12 blocks of shape `range`, block i at 10.0.0.0 + 16 i; issuer holds exactly the same blocks; roa prefix=v4:0a000088/29 (items 8..=15 of the stride of block 8 = offsets 3..=9 of stride 8) -> rejected".to_string());
     sp.done(true, &format!("{} block counts x (5 shapes under the full CA + 2 shapes under a CA with the same blocks) x the queried strides x (16 AS numbers; 16 host addresses + 15 aligned prefixes in each IP family)", counts.len()));
+}
+
+//------------ ROA: number of prefixes x relation of further prefixes to them and to the EE certificate's blocks ---------------
+// A coverage check that switches to another algorithm from some count on (sort and sweep, binary search, de-duplication,
+// "first and last lie in one block") is only wrong for lists that are long enough AND contain two prefixes standing in a
+// particular relation (same start, same end, nested, equal, adjacent) one of which is not covered. Counts, relations,
+// the layout of the list and the place of the odd prefix are therefore crossed.
+
+/// The EE certificate's blocks in slots, inclusive (slot s = the /24 number s counted from 10.0.0.0, the /48 number s counted from 2001:db8::).
+const REL_BLOCKS: [(u32, u32); 4] = [(4, 5), (64, 111), (128, 1300), (2048, 2048)];
+/// Slots around which the further prefixes are built: before everything, both sides of every block end, interior, far behind.
+const REL_ANCHORS: [u32; 22] = [0, 3, 4, 5, 6, 63, 64, 80, 96, 111, 112, 127, 128, 700, 1300, 1301, 2047, 2048, 2049, 3062, 3063, 4000];
+/// How many slots wide (as a power of two) the prefix around an anchor is.
+const REL_WIDER: [u8; 10] = [0, 1, 2, 3, 4, 5, 6, 8, 11, 16];
+
+/// Family and number of further single-slot blocks (slots 3000, 3002, ...) of the EE certificate.
+#[derive(Clone, Copy, Debug, PartialEq, Eq, PartialOrd, Ord)]
+struct RelFam { v6: bool, extra: u32 }
+
+impl RelFam {
+    fn w(self) -> u32 { fam_width(self.v6) }
+    fn slot_len(self) -> u8 { if self.v6 { 48 } else { 24 } }
+    fn base(self) -> u128 { if self.v6 { 0x2001_0db8u128 << 96 } else { 0x0a00_0000 } }
+    fn unit(self) -> u128 { 1u128 << (self.w() - self.slot_len() as u32) }
+    fn slot(self, s: u32) -> u128 { self.base() + s as u128 * self.unit() }
+    fn name(self) -> &'static str { if self.v6 { "v6" } else { "v4" } }
+    fn range(self, p: &Pfx) -> (u128, u128) {
+        let w = self.w();
+        let span = if p.len == 0 { if w == 128 { u128::MAX } else { (1u128 << w) - 1 } } else if p.len as u32 == w { 0 } else { (1u128 << (w - p.len as u32)) - 1 };
+        (p.bits, p.bits + span)
+    }
+    fn blocks(self) -> Vec<(u128, u128)> {
+        REL_BLOCKS.iter().copied().chain((0..self.extra).map(|i| (3000 + 2 * i, 3000 + 2 * i))).map(|(a, b)| (self.slot(a), self.slot(b) + self.unit() - 1)).collect()
+    }
+    /// The aligned prefix of `len` bits that contains the address.
+    fn prefix_of(self, addr: u128, len: u8) -> Pfx {
+        let w = self.w();
+        let bits = if len == 0 { 0 } else if len as u32 == w { addr } else { addr & !((1u128 << (w - len as u32)) - 1) };
+        Pfx { bits, len, max: None }
+    }
+    fn filler(self, s: u32) -> Pfx { Pfx { bits: self.slot(s), len: self.slot_len(), max: None } }
+}
+
+/// Model: one block contains the whole range.
+fn rel_covered(blocks: &[(u128, u128)], (lo, hi): (u128, u128)) -> bool { blocks.iter().any(|&(a, b)| a <= lo && hi <= b) }
+
+/// How the fillers are laid out (all of them covered). A list with n fillers holds the first n of the layout.
+#[derive(Clone, Copy, Debug, PartialEq, Eq, PartialOrd, Ord)]
+enum RelLayout {
+    /// slots [64, 128, 4, 111, 5, 2048, 1300, 80, 65..=110, 129..=1299]: the starts and ends of all blocks first
+    Anchored,
+    /// slots [65..=110, 129..=1299]: none on a block start or end; up to 46 fillers lie in one block
+    Plain,
+    /// the 1/128 slots (v4 /31, v6 /55) number 0, 1, 2, ... of slot 96 onwards: all in one block, all inside the prefixes around slot 96
+    Dense,
+}
+
+impl RelLayout {
+    fn name(self) -> &'static str {
+        match self { RelLayout::Anchored => "slots [64,128,4,111,5,2048,1300,80,65..=110,129..=1299]", RelLayout::Plain => "slots [65..=110,129..=1299]", RelLayout::Dense => "the 1/128 slots 0,1,2,.. from slot 96 on" }
+    }
+    fn fillers(self, f: RelFam) -> Vec<Pfx> {
+        match self {
+            RelLayout::Dense => (0..1025u128).map(|i| Pfx { bits: f.slot(96) + i * (f.unit() >> 7), len: f.slot_len() + 7, max: None }).collect(),
+            _ => {
+                let mut v: Vec<u32> = if self == RelLayout::Anchored { vec![64, 128, 4, 111, 5, 2048, 1300, 80] } else { Vec::new() };
+                for s in (65..=110).chain(129..=1299) { if !v.contains(&s) { v.push(s) } }
+                v.into_iter().map(|s| f.filler(s)).collect()
+            }
+        }
+    }
+}
+
+const REL_ORDERS: [&str; 3] = ["ascending", "descending", "scattered (by index * 37 mod 4099)"];
+
+/// The first n fillers of the layout in the given order.
+fn rel_ordered(all: &[Pfx], n: usize, order: u8) -> Vec<Pfx> {
+    let mut v: Vec<(usize, Pfx)> = all[..n].iter().copied().enumerate().collect();
+    match order { 0 => v.sort_by_key(|(_, p)| p.bits), 1 => { v.sort_by_key(|(_, p)| p.bits); v.reverse() } _ => v.sort_by_key(|(i, _)| (i * 37 % 4099, *i)) }
+    v.into_iter().map(|(_, p)| p).collect()
+}
+
+/// Where a further prefix is inserted.
+#[derive(Clone, Copy, Debug, PartialEq, Eq, PartialOrd, Ord)]
+enum RelPlace { First, Middle, Last,
+    /// where it belongs by (first address, last address) in an ascending / descending list: next to the prefixes it shares its start with
+    InOrder }
+
+fn rel_index(f: RelFam, list: &[Pfx], p: &Pfx, place: RelPlace, order: u8) -> usize {
+    match place {
+        RelPlace::First => 0, RelPlace::Middle => list.len() / 2, RelPlace::Last => list.len(),
+        RelPlace::InOrder => { let k = f.range(p); list.iter().filter(|q| if order == 1 { f.range(q) > k } else { f.range(q) <= k }).count() }
+    }
+}
+
+/// Every further prefix: around each anchor slot the prefixes 1, 2, 4, ... 65536 slots wide and /0, the two halves of the slot, its first and last host address; four slots again with a maxLength.
+fn rel_probes(f: RelFam) -> Vec<Pfx> {
+    let (w, sl) = (f.w() as u8, f.slot_len());
+    let mut v: Vec<Pfx> = Vec::new();
+    for a in REL_ANCHORS {
+        let s = f.slot(a);
+        for r in REL_WIDER { v.push(f.prefix_of(s, sl - r)) }
+        v.push(f.prefix_of(s, 0));
+        v.extend([Pfx { bits: s, len: sl + 1, max: None }, Pfx { bits: s + f.unit() / 2, len: sl + 1, max: None }, Pfx { bits: s, len: w, max: None }, Pfx { bits: s + f.unit() - 1, len: w, max: None }]);
+    }
+    for a in [64u32, 80, 112, 2048] { v.push(Pfx { bits: f.slot(a), len: sl, max: Some(w) }); v.push(Pfx { bits: f.slot(a), len: sl, max: Some(sl + 1) }) }
+    let mut seen = BTreeSet::new();
+    v.retain(|p| seen.insert(*p));
+    v
+}
+
+/// The smaller menu from which ordered PAIRS of further prefixes are taken (over the plain layout: no filler on an anchor).
+fn rel_pair_menu(f: RelFam, full: bool) -> Vec<Pfx> {
+    let (w, sl) = (f.w() as u8, f.slot_len());
+    let p = |a: u32, r: u8| f.prefix_of(f.slot(a), sl - r);
+    let mut v = vec![p(64, 0), Pfx { bits: f.slot(64), len: sl + 1, max: None }, p(64, 5), p(64, 6), p(111, 0), p(112, 0), p(96, 5), p(4, 0), p(4, 2), f.prefix_of(0, 0)];
+    if full { v.extend([p(64, 1), Pfx { bits: f.slot(111) + f.unit() - 1, len: w, max: None }, p(4, 1), p(2048, 0), p(2048, 1), Pfx { bits: f.slot(64), len: sl, max: Some(w) }]) }
+    v
+}
+
+/// How a prefix relates to the EE certificate's blocks and to the other prefixes of the list.
+#[derive(Clone, Copy, Debug, PartialEq, Eq, PartialOrd, Ord)]
+struct Relation { covered: bool, start_in: i8, end_in: i8, at_block_start: bool, at_block_end: bool, equal: bool, inside: bool, contains: u8, same_start: bool, same_end: bool, adjacent: bool,
+    /// 0 = /0, 1 = wider than a slot, 2 = a slot, 3 = part of a slot, 4 = one host address
+    len_class: u8, has_max: bool }
+
+impl Relation {
+    fn of(f: RelFam, blocks: &[(u128, u128)], p: &Pfx, others: &[(u128, u128)]) -> Relation {
+        let (lo, hi) = f.range(p);
+        // which block: 0..=3 the four main ones, 4 = any of the further single-slot blocks
+        let inb = |x: u128| blocks.iter().position(|&(a, b)| a <= x && x <= b).map(|i| i.min(4) as i8).unwrap_or(-1);
+        let mut r = Relation { covered: rel_covered(blocks, (lo, hi)), start_in: inb(lo), end_in: inb(hi), at_block_start: blocks.iter().any(|b| b.0 == lo), at_block_end: blocks.iter().any(|b| b.1 == hi), equal: false, inside: false, contains: 0, same_start: false, same_end: false, adjacent: false,
+            len_class: if p.len == 0 { 0 } else if p.len < f.slot_len() { 1 } else if p.len == f.slot_len() { 2 } else if (p.len as u32) < f.w() { 3 } else { 4 }, has_max: p.max.is_some() };
+        for &(a, b) in others {
+            if (a, b) == (lo, hi) { r.equal = true; continue }
+            if a <= lo && hi <= b { r.inside = true }
+            if lo <= a && b <= hi { r.contains = (r.contains + 1).min(2) }
+            if a == lo { r.same_start = true }
+            if b == hi { r.same_end = true }
+            if (b < lo && b + 1 == lo) || (hi < a && hi + 1 == a) { r.adjacent = true }
+        }
+        r
+    }
+    fn related(&self) -> bool { self.equal || self.inside || self.contains > 0 || self.same_start || self.same_end || (!self.covered && (self.start_in >= 0 || self.end_in >= 0)) }
+    fn show(&self) -> String {
+        let place = |i: i8| match i { -1 => "outside".to_string(), 4 => "in a further block".to_string(), i => format!("in block {i}") };
+        let mut s = format!("{} start {} end {}", if self.covered { "COVERED" } else { "UNCOVERED" }, place(self.start_in), place(self.end_in));
+        if self.at_block_start { s += ", at the block's first address" }
+        if self.at_block_end { s += ", up to the block's last address" }
+        if self.equal { s += ", equals another" }
+        if self.inside { s += ", inside another" }
+        if self.contains > 0 { s += if self.contains == 1 { ", contains one other" } else { ", contains several others" } }
+        if self.same_start { s += ", SAME START as another of another length" }
+        if self.same_end { s += ", same end as another of another length" }
+        if self.adjacent { s += ", adjacent to another" }
+        if self.has_max { s += ", with maxLength" }
+        s
+    }
+}
+
+#[derive(Clone, Debug)]
+struct RelJob { f: RelFam, n: usize, layout: RelLayout, order: u8,
+    /// further prefixes with their places, inserted one after the other
+    probes: Vec<(RelPlace, Pfx)>,
+    /// a single prefix in the OTHER family's list (which then holds nothing else)
+    other: Option<Pfx> }
+
+fn count_relation(ctx: &Ctx, fx: &Fx, thorough: bool) {
+    let sp = ctx.space("roa.count.relation",
+        "ROAs with N filler prefixes in one family plus one or two further prefixes chosen by their RELATION to the fillers and to the EE certificate's blocks. Slot s = the /24 number s from 10.0.0.0 (the /48 number s from 2001:db8::); the EE certificate holds slots 4-5, 64-111, 128-1300 and 2048 of both families (4 blocks), or these and the 64 single slots 3000, 3002, .. 3126 (68 blocks). N in 0..=40 and k-1, k, k+1 for k = 64, 128, 256, 512, 1024. Fillers (all covered) = the first N of a layout: `anchored` slots [64,128,4,111,5,2048,1300,80,65..=110,129..=1299] (the starts and ends of the blocks first), `plain` slots [65..=110,129..=1299] (none on a block end; up to 46 in one block), `dense` the 1/128 slots 0,1,2,.. from slot 96 on (v4 /31s, v6 /55s: all in one block and all inside the wider prefixes around slot 96); listed ascending, descending or scattered. (1) ONE further prefix: around each of 22 anchor slots (before everything, both sides of every block end, interior, far behind) the prefixes 1, 2, 4, 8, 16, 32, 64, 256, 2048, 65536 slots wide and /0, both halves, first and last host address, and four slots again with a maxLength; quick: per (layout, N) one prefix for each distinct relation (covered?, block of its start / of its end, begins at a block's first / ends at a block's last address, equals / lies inside / contains one / several others, same start, same end, adjacent, length class (/0, wider than a slot, a slot, part of a slot, one host address), maxLength), thorough: all of them; inserted first, in the middle, last, and (ascending / descending lists) where it belongs in the order, i.e. next to the prefixes it shares its start with. Quick: v4 anchored x 4 blocks with all 11 (order, place) combinations; v4 plain x 68, v4 dense x 68, v6 anchored x 4, v6 dense x 68 with 4 combinations (ascending in order, descending middle, scattered first and last). Thorough: both families x 3 layouts x both certificates x 11. (2) ordered PAIRS (also twice the same) out of a menu of 10 (thorough 16) prefixes around slots 64, 96, 111, 112, 4 (2048) and /0 over the plain layout, the first at the head and the second at the tail of a scattered list (thorough: also adjacent in the middle, all orders, both certificates). (3) the further prefix in the OTHER family (covered / same start as a covered one but wider / in a gap / /0). Oracle: accepted <=> one block of the EE certificate contains every prefix of the list; non-trivial = lists in which a further prefix equals, contains, lies inside or shares its start or end with another prefix, or begins or ends in a block that does not contain it");
+    let mut counts = scale_counts(40, &[64, 128, 256, 512, 1024]);
+    counts.retain(|&n| n <= 1025);
+    let extras = [0u32, 64];
+    let certs: BTreeMap<u32, Vec<u8>> = extras.iter().map(|&e| {
+        let res = Res { v4: Claim::Blocks(RelFam { v6: false, extra: e }.blocks()), v6: Claim::Blocks(RelFam { v6: true, extra: e }.blocks()), asn: Claim::Missing };
+        (e, ee_der(fx, res, EeV::Ok, 9900 + e as u128))
+    }).collect();
+    use RelLayout::*;
+    use RelPlace::*;
+    let combos_all: Vec<(u8, RelPlace)> = vec![(0, First), (0, Middle), (0, Last), (0, InOrder), (1, First), (1, Middle), (1, Last), (1, InOrder), (2, First), (2, Middle), (2, Last)];
+    let combos_few: Vec<(u8, RelPlace)> = vec![(0, InOrder), (1, Middle), (2, First), (2, Last)];
+    // (family, layout, further blocks, (order, place) combinations)
+    let mut singles: Vec<(bool, RelLayout, u32, &Vec<(u8, RelPlace)>)> = Vec::new();
+    if thorough { for v6 in [false, true] { for l in [Anchored, Plain, Dense] { for e in extras { singles.push((v6, l, e, &combos_all)) } } } }
+    else { singles.extend([(false, Anchored, 0, &combos_all), (false, Plain, 64, &combos_few), (false, Dense, 64, &combos_few), (true, Anchored, 0, &combos_few), (true, Dense, 64, &combos_few)]) }
+    let mut jobs: Vec<RelJob> = Vec::new();
+    let mut relations_used: BTreeSet<Relation> = BTreeSet::new();
+    let mut probes_total = 0usize;
+    for &(v6, layout, extra, combos) in &singles {
+        let f = RelFam { v6, extra };
+        let (probes, blocks, all) = (rel_probes(f), f.blocks(), layout.fillers(f));
+        probes_total = probes.len();
+        for &n in &counts {
+            let franges: Vec<(u128, u128)> = all[..n].iter().map(|p| f.range(p)).collect();
+            let mut seen: BTreeSet<Relation> = BTreeSet::new();
+            let ordered: Vec<Vec<Pfx>> = (0..3u8).map(|o| rel_ordered(&all, n, o)).collect();
+            for p in &probes {
+                let r = Relation::of(f, &blocks, p, &franges);
+                relations_used.insert(r);
+                if !(seen.insert(r) || thorough) { continue }
+                let mut done: BTreeSet<(u8, usize)> = BTreeSet::new();
+                for &(o, place) in combos.iter() {
+                    // short lists: orders and places coincide
+                    let o_eff = if n <= 1 { 0 } else { o };
+                    if !done.insert((o_eff, rel_index(f, &ordered[o_eff as usize], p, place, o_eff))) { continue }
+                    jobs.push(RelJob { f, n, layout, order: o_eff, probes: vec![(place, *p)], other: None });
+                }
+            }
+        }
+    }
+    for v6 in [false, true] {
+        for &extra in if thorough { &extras[..] } else { &extras[..1] } {
+            let f = RelFam { v6, extra };
+            let menu = rel_pair_menu(f, thorough);
+            for &n in &counts { for a in &menu { for b in &menu {
+                for o in if thorough { 0..3u8 } else { 2..3u8 } {
+                    if n <= 1 && o != 2 { continue }
+                    jobs.push(RelJob { f, n, layout: Plain, order: o, probes: vec![(First, *a), (Last, *b)], other: None });
+                    if thorough && n >= 2 { jobs.push(RelJob { f, n, layout: Plain, order: o, probes: vec![(Middle, *a), (Middle, *b)], other: None }) }
+                }
+            }}}
+        }
+        // (3) the further prefix in the other family
+        let (f, g) = (RelFam { v6, extra: 0 }, RelFam { v6: !v6, extra: 0 });
+        for &n in &counts { for p in [g.filler(64), g.prefix_of(g.slot(64), g.slot_len() - 6), g.filler(112), g.prefix_of(0, 0)] {
+            if n >= 1 { jobs.push(RelJob { f, n, layout: Anchored, order: 2, probes: Vec::new(), other: Some(p) }) }
+        }}
+    }
+    // fillers of every (family, layout): built once
+    let fillers: BTreeMap<(bool, RelLayout), Vec<Pfx>> = [false, true].into_iter().flat_map(|v6| [Anchored, Plain, Dense].into_iter().map(move |l| ((v6, l), l.fillers(RelFam { v6, extra: 0 })))).collect();
+    let t = Tally::new();
+    let nt = Mutex::new(0u64);
+    let by_rel: Mutex<BTreeMap<String, u64>> = Mutex::new(BTreeMap::new());
+    jobs.par_iter().for_each(|j| {
+        let f = j.f;
+        let g = RelFam { v6: !f.v6, extra: f.extra };
+        let blocks = f.blocks();
+        let mut list: Vec<Pfx> = rel_ordered(&fillers[&(f.v6, j.layout)], j.n, j.order);
+        let mut idx: Vec<usize> = Vec::new();
+        for (k, (place, p)) in j.probes.iter().enumerate() {
+            // the second of an adjacent pair goes right behind the first
+            let at = if k == 1 && *place == Middle { idx[0] + 1 } else { rel_index(f, &list, p, *place, j.order) };
+            list.insert(at, *p); idx.push(at);
+        }
+        let ranges: Vec<(u128, u128)> = list.iter().map(|p| f.range(p)).collect();
+        let want = ranges.iter().all(|r| rel_covered(&blocks, *r)) && j.other.map(|p| rel_covered(&g.blocks(), g.range(&p))).unwrap_or(true);
+        // the relation of every further prefix to the REST of the list (later insertions are behind earlier ones)
+        let rels: Vec<Relation> = j.probes.iter().zip(&idx).map(|((_, p), &at)| {
+            let others: Vec<(u128, u128)> = ranges.iter().enumerate().filter(|(x, _)| *x != at).map(|(_, r)| *r).collect();
+            Relation::of(f, &blocks, p, &others)
+        }).collect();
+        let mine: Vec<RoaAddr> = list.iter().map(|p| to_roa_addr(p, f.v6)).collect();
+        let theirs: Vec<RoaAddr> = j.other.iter().map(|p| to_roa_addr(p, g.v6)).collect();
+        let (l4, l6) = if f.v6 { (&theirs, &mine) } else { (&mine, &theirs) };
+        let content = der::roa_content(None, 64496, if l4.is_empty() { None } else { Some(l4) }, if l6.is_empty() { None } else { Some(l6) });
+        let bytes = wrap(fx, Kind::Roa, &presign(fx, Kind::Roa, content), &certs[&f.extra]);
+        let (v, _) = run(fx, Kind::Roa, &bytes, &fx.ca, true, Entry::Process(true));
+        sp.eval(); t.add(v.class());
+        if rels.iter().any(|r| r.related()) { *nt.lock().unwrap() += 1 }
+        if j.probes.len() == 1 { *by_rel.lock().unwrap().entry(format!("{} -> {}", rels[0].show(), v.class())).or_insert(0) += 1 }
+        expect(ctx, "C02.roa.covered.accept", "C02.roa.uncovered.reject", want, &v, || {
+            // the count first and right-aligned: the sorted list of witnesses starts with the shortest list that fails
+            let mut s = format!("roa {} {:>4} fillers", f.name(), j.n);
+            for (((_, p), r), at) in j.probes.iter().zip(&rels).zip(&idx) { s += &format!(" + {} at index {} [{}]", render_pfx(p, f.v6), at, r.show()) }
+            if let Some(p) = &j.other { s += &format!(" + {} alone in the other family [{}]", render_pfx(p, g.v6), if rel_covered(&g.blocks(), g.range(p)) { "COVERED" } else { "UNCOVERED" }) }
+            s + &format!("; fillers = the first {} of {} ({}), {}; ee holds slots 4-5, 64-111, 128-1300, 2048{} of both families", j.n, j.layout.name(),
+                if f.v6 { "slot s = /48 number s from 2001:db8::" } else { "slot s = /24 number s from 10.0.0.0" }, REL_ORDERS[j.order as usize], if f.extra > 0 { " and 3000, 3002, .. 3126" } else { "" })
+        });
+    });
+    sp.merge_outcomes(&t.oc.lock().unwrap());
+    sp.nontrivial(*nt.lock().unwrap());
+    sp.set("prefix_counts", serde_json::json!(counts));
+    sp.set("further_prefixes", serde_json::json!(probes_total));
+    sp.set("distinct_relations", serde_json::json!(relations_used.len()));
+    sp.set("single_prefix_relations", serde_json::json!(*by_rel.lock().unwrap()));
+    sp.sample_str(|| "roa v4   40 fillers + v4:0a004000/18 at index 0 [UNCOVERED start in block 1 end outside, contains several others, SAME START as another of another length]; fillers = the first 40 of the anchored layout, ascending -> rejected".to_string());
+    sp.done(true, &format!("{} prefix counts x ({} (family, layout, certificate) settings x {} x up to 11 (order, place) combinations; 2 families x {} ordered pairs x {}; 2 families x 4 prefixes in the other family)", counts.len(), singles.len(),
+        if thorough { format!("{} further prefixes", probes_total) } else { format!("one further prefix per relation ({} distinct relations in all, out of {} prefixes)", relations_used.len(), probes_total) },
+        rel_pair_menu(RelFam { v6: false, extra: 0 }, thorough).len().pow(2), if thorough { "2 placements x 3 orders x 2 certificates" } else { "1 placement, scattered order" }));
+}
+
+//------------ history: fold-colliding copies right after the genuine object ------------------------------------------------------
+// A memo of verified signatures (or digests, or certificates) is sound only if its key identifies the verified operands.
+// Keys that FOLD the operands (xor or sum of machine words, a few leading / trailing octets) collide for copies that
+// differ in two places which cancel out. Such copies are enumerated here and presented right after the genuine object
+// was accepted on the same thread. (A collision of a multiplicative 64-bit hash cannot be enumerated; see DESIGN.)
+
+#[derive(Clone, Copy, Debug, PartialEq, Eq, PartialOrd, Ord)]
+enum FoldField { Signature, Digest, SigningTime, EeKey }
+
+impl FoldField {
+    fn name(self) -> &'static str { match self { FoldField::Signature => "signature value", FoldField::Digest => "message-digest value", FoldField::SigningTime => "signing-time digits", FoldField::EeKey => "EE key modulus" } }
+}
+
+#[derive(Clone, Copy, Debug, PartialEq, Eq, PartialOrd, Ord)]
+enum FoldOp {
+    /// the same bit(s) flipped in the octets p and q (q - p a multiple of the folded word's size): xor fold
+    Xor(usize, usize, u8),
+    /// +1 in one octet, -1 in the other, no carry: sum fold
+    PlusMinus(usize, usize),
+    /// two octets / two aligned words of 4 or 8 octets exchanged: any commutative fold
+    SwapOctets(usize, usize), SwapWords(usize, usize, usize),
+    /// every octet of the range complemented: a key made of the octets outside it
+    Complement(usize, usize),
+    /// one octet changed (single point, but AFTER the genuine object)
+    Single(usize, u8),
+    Prepend0, Append0, DropLast,
+}
+
+impl FoldOp {
+    fn family(self) -> &'static str {
+        match self { FoldOp::Xor(..) => "xor-fold", FoldOp::PlusMinus(..) => "sum-fold", FoldOp::SwapOctets(..) | FoldOp::SwapWords(..) => "swap", FoldOp::Complement(..) => "truncated-key", FoldOp::Single(..) => "single-octet", _ => "length" }
+    }
+    fn show(self) -> String {
+        match self {
+            FoldOp::Xor(p, q, m) => format!("octets {p} and {q} both xor {m:#04x}"),
+            FoldOp::PlusMinus(p, q) => format!("octets {p} and {q}: one +1, the other -1 (no carry)"),
+            FoldOp::SwapOctets(p, q) => format!("octets {p} and {q} exchanged"),
+            FoldOp::SwapWords(p, q, w) => format!("the {w}-octet words at {p} and {q} exchanged"),
+            FoldOp::Complement(a, b) => format!("octets {a}..{b} complemented"),
+            FoldOp::Single(p, m) => format!("octet {p} xor {m:#04x}"),
+            FoldOp::Prepend0 => "a zero octet prepended".into(), FoldOp::Append0 => "a zero octet appended".into(), FoldOp::DropLast => "last octet dropped".into(),
+        }
+    }
+    /// None: not applicable or no change.
+    fn apply(self, f: &[u8]) -> Option<Vec<u8>> {
+        let mut v = f.to_vec();
+        match self {
+            FoldOp::Xor(p, q, m) => { v[p] ^= m; v[q] ^= m }
+            FoldOp::PlusMinus(p, q) => {
+                if v[p] != 0xff && v[q] != 0 { v[p] += 1; v[q] -= 1 } else if v[p] != 0 && v[q] != 0xff { v[p] -= 1; v[q] += 1 } else { return None }
+            }
+            FoldOp::SwapOctets(p, q) => v.swap(p, q),
+            FoldOp::SwapWords(p, q, w) => for i in 0..w { v.swap(p + i, q + i) },
+            FoldOp::Complement(a, b) => for x in &mut v[a..b] { *x = !*x },
+            FoldOp::Single(p, m) => v[p] ^= m,
+            FoldOp::Prepend0 => v.insert(0, 0), FoldOp::Append0 => v.push(0), FoldOp::DropLast => { v.pop(); }
+        }
+        if v == f { None } else { Some(v) }
+    }
+}
+
+/// The tampers of a field of `l` octets. `dists`: distances between the two octets; `all_word_pairs`: every pair of aligned words, else neighbours and first/last.
+fn fold_ops(l: usize, dists: &[usize], all_word_pairs: bool, with_length: bool) -> Vec<FoldOp> {
+    let mut v = Vec::new();
+    for &d in dists { if d >= l { continue }
+        for p in 0..l - d { let q = p + d; v.extend([FoldOp::Xor(p, q, 0x01), FoldOp::Xor(p, q, 0x80), FoldOp::Xor(p, q, 0xff), FoldOp::PlusMinus(p, q), FoldOp::SwapOctets(p, q)]) }
+    }
+    for w in [4usize, 8] {
+        let nw = l / w;
+        for i in 0..nw { for j in i + 1..nw {
+            if all_word_pairs && w == 8 || j == i + 1 || (i == 0 && j == nw - 1) { v.push(FoldOp::SwapWords(i * w, j * w, w)) }
+        }}
+    }
+    let mut ks: Vec<usize> = vec![1, 2, 4, 8, 16, 32, 64, l / 2]; ks.sort(); ks.dedup();
+    for k in ks { if k == 0 || k >= l { continue }
+        v.extend([FoldOp::Complement(0, k), FoldOp::Complement(l - k, l), FoldOp::Complement(k, l), FoldOp::Complement(0, l - k)]);
+        if 2 * k < l { v.push(FoldOp::Complement(k, l - k)) }
+    }
+    v.push(FoldOp::Complement(0, l));
+    for p in 0..l { v.extend([FoldOp::Single(p, 0x01), FoldOp::Single(p, 0x80)]) }
+    if with_length { v.extend([FoldOp::Prepend0, FoldOp::Append0, FoldOp::DropLast]) }
+    v.sort(); v.dedup();
+    v
+}
+
+fn wrap_parts(fx: &Fx, kind: Kind, content: &[u8], attrs: &[Vec<u8>], sig: &[u8], cert: &[u8]) -> Vec<u8> {
+    der::signed_data(&SignedDataParts {
+        version: 3, digest_alg_set: der::set_unsorted(&[der::alg_sha256(false)]), econtent_type: kind.ect(), econtent: content.to_vec(),
+        certificates: vec![cert.to_vec()], crls: vec![], si_version: 3, sid: fx.s.key(K_EE).ski.to_vec(),
+        si_digest_alg: der::alg_sha256(false), signed_attrs: attrs.to_vec(), sig_alg: der::alg_rsa_encryption(), signature: sig.to_vec(),
+    })
+}
+
+fn find_sub(hay: &[u8], needle: &[u8]) -> Option<usize> { hay.windows(needle.len()).position(|w| w == needle) }
+
+fn fold_collisions(ctx: &Ctx, fx: &Fx, ees: &BTreeMap<(Kind, EeV), Vec<u8>>, thorough: bool) {
+    let sp = ctx.space("history.fold_collision",
+        "per kind: on a NEW OS thread the genuine object (accepted), then IMMEDIATELY a copy in which one operand of the signature check was changed in a way that cancels out in a folded or truncated key: field in {signature value (256 octets), message-digest value (32), the 12 digits of the signing time, the EE key's modulus inside the embedded certificate (256)}; change in {the same bit(s) (0x01, 0x80, 0xff) flipped in two octets p and p+d (xor fold of d-octet words, whatever their alignment), +1 / -1 in two such octets without carry (sum fold), the two octets exchanged, two aligned 4- / 8-octet words exchanged, all octets of the first / last / all-but-first / all-but-last / middle k complemented (key truncated to the rest), one octet changed, a zero octet prepended / appended / the last dropped (signature)}; generic kind: d in {1, 2, 4, 8, 16, L/2} (quick: {1, 4, 8, L/2}) and every pair of 8-octet words; ROA, manifest, ASPA: d = 8, neighbouring words. The genuine object is validated again before every copy (chunks of 48 copies per thread). Oracles: every copy is rejected (no changed signature, signed attribute or key can verify), and its observation equals the one it gives first thing on its own new thread; non-trivial = copies (each differs from the genuine object)");
+    let issuers = vec![fx.ca.clone()];
+    let entry_of = |k: Kind| match k { Kind::Mft | Kind::Gen => Entry::At, _ => Entry::Process(true) };
+    struct Case { kind: Kind, field: FoldField, op: FoldOp, bytes: Vec<u8> }
+    let mut cases: Vec<Case> = Vec::new();
+    let mut genuine: BTreeMap<Kind, Vec<u8>> = BTreeMap::new();
+    let mut skipped = 0u64;
+    for k in KINDS {
+        let p = Plan::base(k);
+        let cert = &ees[&(k, EeV::Ok)];
+        let digest = sha256(&p.content);
+        let time = der::utctime(civil(p.st_secs));
+        let attrs_of = |dg: &[u8], t: &[u8]| -> Vec<Vec<u8>> { vec![der::attr_content_type(&p.ect), der::attr_message_digest(dg), der::attr_signing_time(t.to_vec())] };
+        let attrs = attrs_of(&digest, &time);
+        let sig = fx.s.sign_raw(K_EE, &der::signed_attrs_tbs(&attrs));
+        genuine.insert(k, wrap_parts(fx, k, &p.content, &attrs, &sig, cert));
+        // the modulus inside the certificate: INTEGER of 257 octets (leading zero) inside the RSAPublicKey
+        let spki = &fx.s.key(K_EE).spki_der;
+        let modulus_at = find_sub(cert, spki).and_then(|a| find_sub(spki, &[0x02, 0x82, 0x01, 0x01, 0x00]).map(|b| a + b + 5));
+        let Some(modulus_at) = modulus_at else { ctx.machinery_error("history.fold_collision: cannot locate the EE key's modulus"); continue };
+        let full = k == Kind::Gen;
+        for field in [FoldField::Signature, FoldField::Digest, FoldField::SigningTime, FoldField::EeKey] {
+            let orig: Vec<u8> = match field { FoldField::Signature => sig.clone(), FoldField::Digest => digest.clone(), FoldField::SigningTime => time[2..14].to_vec(), FoldField::EeKey => cert[modulus_at..modulus_at + 256].to_vec() };
+            let l = orig.len();
+            let dists: Vec<usize> = if !full { vec![8] } else if thorough { vec![1, 2, 4, 8, 16, l / 2] } else { vec![1, 4, 8, l / 2] };
+            for op in fold_ops(l, &dists, full, field == FoldField::Signature) {
+                let Some(t) = op.apply(&orig) else { skipped += 1; continue };
+                let bytes = match field {
+                    FoldField::Signature => wrap_parts(fx, k, &p.content, &attrs, &t, cert),
+                    FoldField::Digest => wrap_parts(fx, k, &p.content, &attrs_of(&t, &time), &sig, cert),
+                    FoldField::SigningTime => { let mut tt = time.clone(); tt[2..14].copy_from_slice(&t); wrap_parts(fx, k, &p.content, &attrs_of(&digest, &tt), &sig, cert) }
+                    FoldField::EeKey => { let mut c = cert.clone(); c[modulus_at..modulus_at + 256].copy_from_slice(&t); wrap_parts(fx, k, &p.content, &attrs, &sig, &c) }
+                };
+                cases.push(Case { kind: k, field, op, bytes });
+            }
+        }
+    }
+    let op_of = |k: Kind, name: String, bytes: Vec<u8>| Op { name, kind: k, bytes, issuer: 0, strict: true, entry: entry_of(k), cb_panics: false, at: T0 };
+    let on_new_thread = |f: &(dyn Fn() -> Vec<String> + Sync)| -> Vec<String> { std::thread::scope(|sc| sc.spawn(|| f()).join().unwrap_or_else(|_| vec!["thread died".to_string()])) };
+    let t = Tally::new();
+    let fams: Mutex<BTreeMap<String, u64>> = Mutex::new(BTreeMap::new());
+    let mut chunks: Vec<Vec<&Case>> = Vec::new();
+    for k in KINDS { let of_kind: Vec<&Case> = cases.iter().filter(|c| c.kind == k).collect(); for ch in of_kind.chunks(48) { chunks.push(ch.to_vec()) } }
+    chunks.par_iter().for_each(|chunk| {
+        let ops: Vec<Op> = chunk.iter().map(|c| op_of(c.kind, String::new(), c.bytes.clone())).collect();
+        let gen_op = op_of(chunk[0].kind, String::new(), genuine[&chunk[0].kind].clone());
+        let after = on_new_thread(&|| {
+            let mut out = Vec::new();
+            for o in &ops { out.push(observe(&issuers, &gen_op)); out.push(observe(&issuers, o)) }
+            out
+        });
+        if after.len() != 2 * chunk.len() { fail("C02.history.fold.reject", format!("kind={} chunk starting with {}", chunk[0].kind.name(), chunk[0].op.show()), format!("the thread running the sequence died: {:?}", after.last())); return }
+        for (i, (c, o)) in chunk.iter().zip(&ops).enumerate() {
+            let (g, a) = (&after[2 * i], &after[2 * i + 1]);
+            let fresh = on_new_thread(&|| vec![observe(&issuers, o)]).pop().unwrap_or_default();
+            sp.evals(3); sp.nontrivial(1);
+            let wit = || format!("new thread: {}.valid -> copy with {}: {} ({})", c.kind.name(), c.field.name(), c.op.show(), c.op.family());
+            if !g.starts_with("accepted") { fail("C02.baseline.accept", wit(), format!("the genuine object was not accepted: {}", trunc(g, 200))); continue }
+            t.add("genuine-accepted");
+            let cls = if a.starts_with("accepted") { "copy-accepted" } else if a.starts_with("decode error") { "copy-refused-at-decode" } else { "copy-rejected" };
+            t.add(cls);
+            *fams.lock().unwrap().entry(format!("{} / {} / {}", c.field.name(), c.op.family(), cls)).or_insert(0) += 1;
+            if a.starts_with("accepted") {
+                fail("C02.history.fold.reject", wit(), format!("accepted right after the genuine object although its {} does not verify; first thing on a new thread: `{}`", c.field.name(), trunc(&fresh, 160)));
+            } else if fresh.starts_with("accepted") {
+                fail("C02.history.fold.reject", wit(), format!("accepted first thing on a new thread although its {} does not verify", c.field.name()));
+            } else if *a != fresh {
+                fail("C02.history.independent", wit(), format!("after the genuine object: `{}`; first thing on a new thread: `{}`", trunc(a, 200), trunc(&fresh, 200)));
+            }
+        }
+    });
+    sp.merge_outcomes(&t.oc.lock().unwrap());
+    sp.set("copies", serde_json::json!(cases.len()));
+    sp.set("no_op_changes_skipped", serde_json::json!(skipped));
+    sp.set("by_field_and_family", serde_json::json!(*fams.lock().unwrap()));
+    sp.sample_str(|| "new thread: generic.valid -> copy with signature value: octets 3 and 11 both xor 0x01 (xor-fold) -> rejected on both threads".to_string());
+    sp.done(true, &format!("{} copies (4 kinds x 4 fields x the changes above), each right after the genuine object on a new OS thread and alone on another", cases.len()));
 }
